@@ -42,13 +42,25 @@
 //!                           (derived, after every scenario op: the assembler's TemplateSize next to the
 //!                            real sizes of its template, read under its lock) -> total=<b> parts=<b> le=<b> inv=<b>
 //!   weight <size> <cycles>  -> get_transaction_weight
+//!   step <kind> <back>      run ONE real update path of the block assembler inside the service (hook
+//!                           `verif_assembler_step`): 0 update_blank(snapshot; back = k > 0: the snapshot of the k-th
+//!                           previous tip), 1 update_full, 2 update_uncles, 3 update_proposals,
+//!                           4 update_transactions -> ok; followed by the derived lines (pool dump for kinds 1, 4 and)
+//!       astep ...           state before, candidates, pending ids, resolve-check set -> template uncles / proposals /
+//!                           txs / TemplateSize / candidates left, compared with `AssemblerSvc.gstep` (see do_astep)
+//!   cu-new | cu-ins <id> <number> | cu-rm <id> <number> | cu-has <id> <number> | cu-vals
+//!                           the real `CandidateUncles` driven directly (no node): insert -> <0|1> len=<n>,
+//!                           remove_by_number -> <0|1> len=<n>, contains -> <0|1>, values -> <height>:<ids>;...
 //!
 //! Oracle (implementation alone): class `template-rejected` (copy node did not answer Ok(true)),
 //! `template-header`, `template-order` (a parent after its child), `template-unresolved` (an input that
 //! is neither live on the template's parent chain nor created earlier in the template, or spent twice),
 //! `template-size`, `template-cycles`, `template-proposals`, `template-uncles`, `template-cellbase`,
 //! `selector-dup`, `selector-ancestors`, `selector-order`, `selector-limits`, `selector-sums`,
-//! `template-size-bookkeeping` (TemplateSize differs from the real sizes of the template it describes).
+//! `template-size-bookkeeping` (TemplateSize differs from the real sizes of the template it describes),
+//! `template-header-fields`, `template-part-not-fresh` (after an explicit step: number / parent / target follow the
+//! template's own snapshot and epoch; cellbase / extension / dao are what the builders give for it),
+//! `candidate-uncles-overfull` / `-order` / `-count` (directly driven container).
 use crate::common::*;
 use crate::node::*;
 use ckb_app_config::{BlockAssemblerConfig, NetworkConfig, TxPoolConfig};
@@ -183,6 +195,10 @@ struct World {
     /// op number at which a pool dump last showed maintained ancestors_* != recomputation (C11's F3)
     stale_op: Option<u64>,
     op_no: u64,
+    /// small ids of block hashes (candidate uncles and their parents) for the `astep` lines
+    bid: HashMap<Byte32, usize>,
+    /// snapshots of the main node's earlier tips (for `step 0 <back>`: update_blank on an OLDER tip)
+    snaps: Vec<Arc<ckb_snapshot::Snapshot>>,
 }
 
 fn cap_of(tx: &TransactionView, i: usize) -> u64 {
@@ -207,7 +223,7 @@ impl World {
         let copies = (0..3).map(|i| Copy { node: Node::start(&dir.join(format!("copy-{i}")), consensus.clone(), &ncfg), cursor: 0 }).collect();
         let builder = ChainBuilder::new(consensus.clone(), &dir.join("builder"));
         let gcells = genesis_cells(&consensus);
-        World { dir, cfg, consensus, main, copies, log: vec![], builder, txs: vec![], tid_by_short: HashMap::new(), tid_by_hash: HashMap::new(), gcells, salt: 1000, stale_op: None, op_no: 0 }
+        World { dir, cfg, consensus, main, copies, log: vec![], builder, txs: vec![], tid_by_short: HashMap::new(), tid_by_hash: HashMap::new(), gcells, salt: 1000, stale_op: None, op_no: 0, bid: HashMap::new(), snaps: vec![] }
     }
 
     fn finish(self) {
@@ -254,6 +270,15 @@ impl World {
     /// main node processes a block; it is appended to the log the copies follow
     fn main_process(&mut self, b: &BlockView) -> Result<bool, String> {
         let r = self.main.process(b);
+        {
+            let snap = Arc::clone(&self.main.shared.snapshot());
+            if self.snaps.last().map_or(true, |l| l.tip_hash() != snap.tip_hash()) {
+                self.snaps.push(snap);
+                if self.snaps.len() > 6 {
+                    self.snaps.remove(0);
+                }
+            }
+        }
         self.log.push(b.clone());
         self.builder.blocks.entry(b.hash()).or_insert_with(|| b.clone());
         r
@@ -529,8 +554,18 @@ fn do_select(w: &mut World, out: &mut Out, sl: u64, cl: u64) {
         Ok(r) => r,
         Err(e) => panic!("verif_read failed: {e}"),
     };
-    let tid = |id: &ProposalShortId| -> usize { *w.tid_by_short.get(id).expect("pool tx known to the harness") };
     let pos: HashMap<ProposalShortId, usize> = r.sel.iter().enumerate().map(|(i, (id, _, _))| (id.clone(), i)).collect();
+    let (links_ok, agg_ok, key_ok, n_prop) = emit_view(w, out, &r, &pos);
+    let stale = w.stale();
+    let ids: HashSet<ProposalShortId> = r.dump.entries.iter().map(|e| e.id.clone()).collect();
+    let by_id: HashMap<ProposalShortId, &ckb_tx_pool::verif::EntryDump> = r.dump.entries.iter().map(|e| (e.id.clone(), e)).collect();
+    do_select_tail(w, out, &r, sl, cl, links_ok, agg_ok, key_ok, n_prop, stale, &ids, &by_id);
+}
+
+/// the `pool` / `ent` / `closure` / `hyp` lines of a dumped pool; `pos` = tie ranks taken from the
+/// implementation's own output. Returns (links_ok, agg_ok, key_ok, number of proposed entries).
+fn emit_view(w: &mut World, out: &mut Out, r: &SelRes, pos: &HashMap<ProposalShortId, usize>) -> (bool, bool, bool, usize) {
+    let tid = |id: &ProposalShortId| -> usize { *w.tid_by_short.get(id).expect("pool tx known to the harness") };
     out.op("pool", "ok");
     let links: HashMap<ProposalShortId, (Vec<ProposalShortId>, Vec<ProposalShortId>)> = r.dump.links.iter().map(|(id, p, c)| (id.clone(), (p.clone(), c.clone()))).collect();
     let by_id: HashMap<ProposalShortId, &ckb_tx_pool::verif::EntryDump> = r.dump.entries.iter().map(|e| (e.id.clone(), e)).collect();
@@ -625,10 +660,28 @@ fn do_select(w: &mut World, out: &mut Out, sl: u64, cl: u64) {
         out.count("view-aggregates-stale");
         w.stale_op = Some(w.op_no);
     }
-    let stale = w.stale();
     if !links_ok {
         out.count("view-links-inconsistent");
     }
+    (links_ok, agg_ok, key_ok, n_prop)
+}
+
+#[allow(clippy::too_many_arguments)]
+fn do_select_tail(
+    w: &mut World,
+    out: &mut Out,
+    r: &SelRes,
+    sl: u64,
+    cl: u64,
+    links_ok: bool,
+    agg_ok: bool,
+    key_ok: bool,
+    n_prop: usize,
+    stale: bool,
+    ids: &HashSet<ProposalShortId>,
+    by_id: &HashMap<ProposalShortId, &ckb_tx_pool::verif::EntryDump>,
+) {
+    let tid = |id: &ProposalShortId| -> usize { *w.tid_by_short.get(id).expect("pool tx known to the harness") };
     let sel_ids: Vec<usize> = r.sel.iter().map(|(id, _, _)| tid(id)).collect();
     let ans = format!("{} size={} cycles={}", if sel_ids.is_empty() { "-".to_string() } else { sel_ids.iter().map(|x| x.to_string()).collect::<Vec<_>>().join(",") }, r.size, r.cycles);
     // Exact comparison is meaningful only when the dumped pool satisfies the hypotheses of the
@@ -724,6 +777,402 @@ fn emit_tsize(w: &mut World, out: &mut Out) {
     }
 }
 
+
+// ------------------------------------------------------------------------------------------------
+// one real update path of the block assembler, compared with `AssemblerSvc.gstep` (Lean)
+// ------------------------------------------------------------------------------------------------
+
+/// wait until the assembler's background loop is idle (work_id stable over two reads)
+fn settle_assembler(w: &World) {
+    // interval >= 1000 ms = "manual" cases: the background loop only queues Pending / Proposed / Uncle
+    // messages (its next tick is far away), the explicit `step` ops are the only incremental updates
+    let iv = if w.cfg.interval_ms >= 1000 { 0 } else { w.cfg.interval_ms };
+    std::thread::sleep(Duration::from_millis(if iv > 0 { iv + 4 } else { 3 }));
+    let mut last = None;
+    let mut same = 0;
+    for _ in 0..30 {
+        let id = w.tpc().get_block_template(None, None, None).ok().and_then(|r| r.ok()).map(|t| t.work_id.value());
+        if id.is_some() && id == last {
+            same += 1;
+            if same >= 2 {
+                break;
+            }
+        } else {
+            same = 0;
+        }
+        last = id;
+        std::thread::sleep(Duration::from_millis(if iv > 0 { iv + 2 } else { 2 }));
+    }
+}
+
+fn dots(v: &[usize]) -> String {
+    if v.is_empty() { "_".into() } else { v.iter().map(|x| x.to_string()).collect::<Vec<_>>().join(".") }
+}
+
+fn commas(v: &[usize]) -> String {
+    if v.is_empty() { "-".into() } else { v.iter().map(|x| x.to_string()).collect::<Vec<_>>().join(",") }
+}
+
+/// `step <kind> <back>`: kind 0 `update_blank(snapshot)` (back = 0: the main node's current snapshot,
+/// k > 0: the snapshot of the k-th previous tip), 1 `update_full`, 2 `update_uncles`,
+/// 3 `update_proposals`, 4 `update_transactions`, each run inside the service exactly as
+/// `block_assembler::process` runs it (hook `verif_assembler_step`). Emits the derived lines
+/// (`pool`/`ent`/`closure`/`hyp` for kinds 1 and 4, then)
+///   astep <kind> <same_tip> <U> <tip_number> <epoch_number> <epoch_target> <base>
+///         <size.txs> <size.proposals> <size.uncles> <size.total> <template uncles> <template proposals>
+///         <template txs> <candidates in values() order, with the snapshot's answers> <pending ids in
+///         get_proposals order> <ids whose resolve check passes (computed here from the chain)>
+///     -> uncles=<ids in order> props=<sorted> txs=<ids in order> size=<txs>,<proposals>,<uncles>,<total>
+///        cands=<sorted ids left in the container>
+fn do_astep(w: &mut World, out: &mut Out, kind: u8, back: usize) {
+    // the pool has processed the main node's tip (an unsynchronised `mine 0` / `fork .. 0` may precede)
+    w.sync_pool(out);
+    settle_assembler(w);
+    let snap_arg = if kind == 0 {
+        let cur = Arc::clone(&w.main.shared.snapshot());
+        if back == 0 || w.snaps.len() <= back {
+            Some(cur)
+        } else {
+            let s = Arc::clone(&w.snaps[w.snaps.len() - 1 - back]);
+            out.count("astep-blank-on-older-tip");
+            Some(s)
+        }
+    } else {
+        None
+    };
+    // the pool as the step will read it (nothing else talks to the service meanwhile)
+    let pre = if kind == 1 || kind == 4 {
+        let res = w.tpc().verif_read(move |pool| {
+            let pm = pool.verif_pool_map();
+            let dump = pm.verif_dump();
+            let mut anc = HashMap::new();
+            let mut desc = HashMap::new();
+            for e in &dump.entries {
+                anc.insert(e.id.clone(), pm.verif_calc_ancestors(&e.id));
+                desc.insert(e.id.clone(), pm.verif_calc_descendants(&e.id));
+            }
+            SelRes { dump, anc, desc, sel: vec![], size: 0, cycles: 0 }
+        });
+        match res {
+            Ok(r) => Some(r),
+            Err(e) => panic!("verif_read failed: {e}"),
+        }
+    } else {
+        None
+    };
+    let snap_for_cb = snap_arg.clone();
+    let r = match w.tpc().verif_assembler_step(kind, snap_arg) {
+        Ok(Some(r)) => r,
+        _ => {
+            out.count("astep-error");
+            return;
+        }
+    };
+    out.count(&format!("astep-kind-{kind}"));
+    if r.after.work_id > r.before.work_id + 1 {
+        // another update ran in between (never seen after settling); nothing to compare
+        out.count("astep-raced");
+        return;
+    }
+    let u_size = ckb_types::core::UncleBlockView::serialized_size_in_block();
+    let p_size = ProposalShortId::serialized_size();
+    let same_tip = r.pool_tip == r.before.tip_hash;
+    // --- implementation-only oracle: the header fields of the template follow its own snapshot / epoch
+    {
+        let a = &r.after;
+        if a.number != a.tip_number + 1 || a.parent_hash != a.tip_hash || a.compact_target != a.epoch_target {
+            out.oracle_fail("template-header-fields", &format!("after step {kind}: number={} tip_number={} compact_target={} epoch_target={} parent==tip:{}", a.number, a.tip_number, a.compact_target, a.epoch_target, a.parent_hash == a.tip_hash));
+        }
+        if a.size[3] != a.basic + a.txs.iter().map(|t| t.1).sum::<usize>() {
+            out.oracle_fail("template-size-bookkeeping", &format!("after step {kind}: size.total={} but basic={} + txs", a.size[3], a.basic));
+        }
+        if r.fresh != [true, true, true] {
+            if pool_aggregates_stale(w) {
+                w.stale_op = Some(w.op_no);
+            }
+            if w.stale() {
+                // consequence of F8 (stale pool aggregates): counted, judged by the template oracle's own classes
+                out.count("astep-not-fresh-stale-aggregates");
+            } else {
+                out.oracle_fail("template-part-not-fresh", &format!("after step {kind}: cellbase/extension/dao fresh = {:?}", r.fresh));
+            }
+        }
+    }
+    let mut view_ok = true;
+    if let Some(pre) = &pre {
+        let mut pos: HashMap<ProposalShortId, usize> = HashMap::new();
+        for (i, id) in r.selected_again.iter().enumerate() {
+            pos.insert(id.clone(), 500_000 + i);
+        }
+        for (i, (id, _, _)) in r.after.txs.iter().enumerate() {
+            pos.insert(id.clone(), i);
+        }
+        let (links_ok, agg_ok, key_ok, _n) = emit_view(w, out, pre, &pos);
+        view_ok = links_ok && agg_ok && key_ok;
+    }
+    if !view_ok {
+        out.op(&format!("astep-stale {kind}"), "stale");
+        out.count("astep-stale");
+        return;
+    }
+    let tid = |id: &ProposalShortId| -> usize { *w.tid_by_short.get(id).expect("tx known to the harness") };
+    let mut bid_map = std::mem::take(&mut w.bid);
+    let mut bid = |h: &Byte32| -> usize {
+        let n = bid_map.len() + 1;
+        *bid_map.entry(h.clone()).or_insert(n)
+    };
+    let (tipst, base) = if kind == 0 {
+        let a = &r.after;
+        (a, a.basic - u_size * a.uncles.len() - p_size * a.proposals.len())
+    } else {
+        let b = &r.before;
+        (b, b.basic - u_size * b.uncles.len() - p_size * b.proposals.len())
+    };
+    let b = &r.before;
+    let t_uncles = if b.uncles.is_empty() {
+        "-".to_string()
+    } else {
+        b.uncles.iter().map(|(h, ps)| format!("{}:0:0:0:0:0:{}", bid(h), dots(&ps.iter().map(&tid).collect::<Vec<_>>()))).collect::<Vec<_>>().join(";")
+    };
+    let t_props = commas(&b.proposals.iter().map(&tid).collect::<Vec<_>>());
+    let t_txs = if b.txs.is_empty() { "-".to_string() } else { b.txs.iter().map(|(id, sz, cy)| format!("{}:{}:{}", tid(id), sz, cy)).collect::<Vec<_>>().join(",") };
+    let cands = if r.cands_before.is_empty() {
+        "-".to_string()
+    } else {
+        r.cands_before
+            .iter()
+            .map(|c| {
+                let fl = (c.is_main as u8) * 8 + (c.is_uncle as u8) * 4 + (c.parent_is_main as u8) * 2 + c.parent_is_uncle as u8;
+                format!("{}:{}:{}:{}:{}:{}:{}", bid(&c.hash), bid(&c.parent_hash), c.number, c.epoch_number, c.compact_target, fl, dots(&c.proposals.iter().map(&tid).collect::<Vec<_>>()))
+            })
+            .collect::<Vec<_>>()
+            .join(";")
+    };
+    let pending = commas(&r.pending.iter().map(&tid).collect::<Vec<_>>());
+    // resolve check of the selected transactions, from the chain and the transactions themselves
+    let keep: Vec<usize> = {
+        let snap = w.main.shared.snapshot();
+        let usable = snap.tip_hash() == r.after.tip_hash;
+        let mut made: HashSet<Byte32> = HashSet::new();
+        let mut used: HashSet<OutPoint> = HashSet::new();
+        let mut k = vec![];
+        for id in &r.selected_again {
+            let t = tid(id);
+            let tx = &w.txs[t - 1];
+            let ok = !usable || tx.input_pts_iter().all(|op| !used.contains(&op) && (made.contains(&op.tx_hash()) || snap.have_cell(&op)));
+            if ok {
+                for op in tx.input_pts_iter() {
+                    used.insert(op);
+                }
+                made.insert(tx.hash());
+                k.push(t);
+            } else {
+                out.count("astep-resolve-check-drops");
+            }
+        }
+        k
+    };
+    let a = &r.after;
+    let mut left: Vec<usize> = r.cands_after.iter().map(|h| bid(h)).collect();
+    left.sort();
+    let mut props_after: Vec<usize> = a.proposals.iter().map(&tid).collect();
+    props_after.sort();
+    let line = format!(
+        "astep {} {} {} {} {} {} {} {} {} {} {} {} {} {} {} {} {}",
+        kind, same_tip as u8, u_size, tipst.tip_number, tipst.epoch_number, tipst.epoch_target, base, b.size[0], b.size[1], b.size[2], b.size[3], t_uncles, t_props, t_txs, cands, pending, commas(&keep)
+    );
+    let ans = format!(
+        "uncles={} props={} txs={} size={},{},{},{} cands={}",
+        commas(&a.uncles.iter().map(|(h, _)| bid(h)).collect::<Vec<_>>()),
+        commas(&props_after),
+        commas(&a.txs.iter().map(|(id, _, _)| tid(id)).collect::<Vec<_>>()),
+        a.size[0],
+        a.size[1],
+        a.size[2],
+        a.size[3],
+        commas(&left)
+    );
+    out.op(&line, &ans);
+    // update_blank: the cellbase `build_cellbase` made, against the model's decision
+    //   cellbase <finalization_delay_length> <tip_number> <block_reward.total> <occupied capacity of the output> -> outputs=<n>
+    if let Some(snap) = &snap_for_cb {
+        let cons = snap.consensus();
+        let tip = snap.tip_header();
+        if let Ok((lock, reward)) = RewardCalculator::new(cons, snap.as_ref()).block_reward_to_finalize(tip) {
+            let output = packed::CellOutput::new_builder().capacity(reward.total).lock(lock).build();
+            if let Ok(occ) = output.occupied_capacity(Capacity::zero()) {
+                out.op(
+                    &format!("cellbase {} {} {} {}", cons.finalization_delay_length(), tip.number(), reward.total.as_u64(), occ.as_u64()),
+                    &format!("outputs={}", r.after.cellbase_outputs),
+                );
+                out.count(if r.after.cellbase_outputs == 0 { "astep-cellbase-without-output" } else { "astep-cellbase-with-output" });
+            }
+        }
+    }
+    // what the step reached
+    if !same_tip {
+        out.count("astep-pool-on-other-tip");
+        if matches!(kind, 1 | 3 | 4) && a.work_id == b.work_id {
+            out.count("astep-guarded-no-op");
+        }
+    }
+    if a.work_id != b.work_id {
+        out.count(&format!("astep-kind-{kind}-changed-template"));
+    } else if kind != 0 {
+        out.count(&format!("astep-kind-{kind}-left-template"));
+    }
+    if r.cands_after.len() < r.cands_before.len() {
+        out.count("astep-candidates-removed");
+    }
+    if !a.uncles.is_empty() {
+        out.count("astep-with-uncles");
+    }
+    if a.uncles.len() == w.consensus.max_uncles_num && !a.uncles.is_empty() && r.cands_before.len() > a.uncles.len() {
+        out.count("astep-uncles-cut-at-max");
+    }
+    if matches!(kind, 1 | 4) && same_tip && a.txs.len() < r.selected_again.len() {
+        out.count("astep-fewer-txs-than-selector");
+    }
+    let max = w.consensus.max_block_bytes as usize;
+    if a.size[3] + 10 > max {
+        out.count("astep-total-within-proposal-id-of-max");
+    } else if a.size[3] + 228 > max {
+        out.count("astep-total-within-uncle-of-max");
+    }
+    drop(bid);
+    w.bid = bid_map;
+}
+
+// ------------------------------------------------------------------------------------------------
+// the candidate-uncle container driven directly (`CandidateUncles` is public)
+// ------------------------------------------------------------------------------------------------
+
+thread_local! {
+    static CU: std::cell::RefCell<ckb_tx_pool::block_assembler::CandidateUncles> = std::cell::RefCell::new(ckb_tx_pool::block_assembler::CandidateUncles::new());
+}
+
+fn cu_uncle(id: u64, number: u64) -> ckb_types::core::UncleBlockView {
+    let header = ckb_types::core::HeaderBuilder::default().number(number).epoch(ckb_types::core::EpochNumberWithFraction::new(1, 0, 10)).nonce(id as u128).build();
+    ckb_types::core::BlockBuilder::default().header(header).build().as_uncle()
+}
+
+fn exec_cu(out: &mut Out, line: &str, ts: &[&str]) {
+    CU.with(|c| {
+        let mut c = c.borrow_mut();
+        match ts[0] {
+            "cu-new" => {
+                *c = ckb_tx_pool::block_assembler::CandidateUncles::new();
+                out.op(line, "ok");
+            }
+            "cu-ins" => {
+                let n = nums(&ts[1..]);
+                let before = c.len();
+                let r = c.insert(cu_uncle(n[0], n[1]));
+                out.op(line, &format!("{} len={}", r as u8, c.len()));
+                out.count(if r { if c.len() <= before { "cu-insert-evicting" } else { "cu-insert" } } else if c.len() < before { "cu-insert-refused-after-evicting" } else { "cu-insert-refused" });
+                if c.len() > 128 {
+                    out.oracle_fail("candidate-uncles-overfull", &format!("len={}", c.len()));
+                }
+            }
+            "cu-rm" => {
+                let n = nums(&ts[1..]);
+                let r = c.remove_by_number(&cu_uncle(n[0], n[1]));
+                out.op(line, &format!("{} len={}", r as u8, c.len()));
+                out.count(if r { "cu-remove" } else { "cu-remove-absent" });
+            }
+            "cu-has" => {
+                let n = nums(&ts[1..]);
+                out.op(line, &format!("{}", c.contains(&cu_uncle(n[0], n[1])) as u8));
+            }
+            "cu-vals" => {
+                let mut by: std::collections::BTreeMap<u64, Vec<u128>> = Default::default();
+                let mut last = 0u64;
+                let mut total = 0usize;
+                for u in c.values() {
+                    if u.number() < last {
+                        out.oracle_fail("candidate-uncles-order", "values() not in ascending height order");
+                    }
+                    last = u.number();
+                    total += 1;
+                    by.entry(u.number()).or_default().push(u.header().nonce());
+                }
+                if total != c.len() {
+                    out.oracle_fail("candidate-uncles-count", &format!("len()={} but values() yields {}", c.len(), total));
+                }
+                let s = if by.is_empty() {
+                    "-".to_string()
+                } else {
+                    by.iter_mut()
+                        .map(|(k, v)| {
+                            v.sort();
+                            format!("{}:{}", k, v.iter().map(|x| x.to_string()).collect::<Vec<_>>().join("."))
+                        })
+                        .collect::<Vec<_>>()
+                        .join(";")
+                };
+                out.op(line, &s);
+            }
+            other => panic!("bad op {other}"),
+        }
+    });
+}
+
+/// directly driven container: heights in a sliding window, per-height overflow, duplicates, fills up to
+/// the global limit, then inserts below / at / above the lowest height
+fn gen_cu_case(out: &mut Out, base: &Path, rng: &mut Rng, n_ops: u64) {
+    out.begin_case("candidate-uncles");
+    let mut w: Option<World> = None;
+    exec(&mut w, out, base, "cu-new");
+    let mut next_id = 1u64;
+    let mut known: Vec<(u64, u64)> = vec![];
+    let lo = rng.range(5, 50);
+    let mut hi = lo + rng.range(3, 14);
+    let mut fp = String::from("cu");
+    for i in 0..n_ops {
+        let r = rng.below(100);
+        let line = if r < 62 {
+            // new uncle: mostly inside the window, sometimes just below / at the lowest height, sometimes above
+            let number = match rng.below(12) {
+                0 => lo.saturating_sub(rng.range(1, 3)),
+                1 => lo,
+                2 => {
+                    hi += 1;
+                    hi
+                }
+                3 => known.iter().map(|k| k.1).min().unwrap_or(lo),
+                4 => known.iter().map(|k| k.1).min().unwrap_or(lo) + 1,
+                _ => rng.range(lo, hi),
+            };
+            let id = next_id;
+            next_id += 1;
+            known.push((id, number));
+            format!("cu-ins {} {}", id, number)
+        } else if r < 72 && !known.is_empty() {
+            let k = *rng.pick(&known);
+            format!("cu-ins {} {}", k.0, k.1)
+        } else if r < 84 && !known.is_empty() {
+            let k = *rng.pick(&known);
+            format!("cu-rm {} {}", k.0, k.1)
+        } else if r < 92 && !known.is_empty() {
+            let k = *rng.pick(&known);
+            format!("cu-has {} {}", k.0, k.1)
+        } else if r < 94 {
+            format!("cu-rm {} {}", next_id + 1000, rng.range(lo, hi))
+        } else {
+            "cu-vals".to_string()
+        };
+        if i % 64 == 0 {
+            fp.push(line.as_bytes()[3] as char);
+        }
+        exec(&mut w, out, base, &line);
+        if known.len() > 400 {
+            known.drain(0..100);
+        }
+    }
+    exec(&mut w, out, base, "cu-vals");
+    out.nontrivial(format!("{fp}{lo}-{hi}"));
+}
+
 // ------------------------------------------------------------------------------------------------
 // executing ops
 // ------------------------------------------------------------------------------------------------
@@ -745,14 +1194,18 @@ fn exec(w: &mut Option<World>, out: &mut Out, base: &Path, line: &str) {
             *w = Some(World::new(base, out.case, cfg));
             out.op(line, "ok");
         }
-        "pool" | "ent" | "closure" | "hyp" | "tsize" => { /* derived lines, regenerated */ }
+        "pool" | "ent" | "closure" | "hyp" | "tsize" | "astep" | "astep-stale" | "cellbase" => { /* derived lines, regenerated */ }
+        "cu-new" | "cu-ins" | "cu-rm" | "cu-has" | "cu-vals" => exec_cu(out, line, &ts),
         "weight" => {
             let n = nums(&ts[1..]);
             out.op(line, &get_transaction_weight(n[0] as usize, n[1]).to_string());
         }
         _ => {
             let w = w.as_mut().expect("cfg first");
-            w.op_no += 1;
+            // `step` ops do not age the stale-aggregates window (it is counted in scenario events)
+            if ts[0] != "step" {
+                w.op_no += 1;
+            }
             match ts[0] {
                 "submit" => {
                     let tid: usize = ts[1].parse().unwrap();
@@ -905,6 +1358,11 @@ fn exec(w: &mut Option<World>, out: &mut Out, base: &Path, line: &str) {
                 "select" | "select-stale" => {
                     let n = nums(&ts[1..]);
                     do_select(w, out, n[0], n[1]);
+                }
+                "step" => {
+                    let n = nums(&ts[1..]);
+                    out.op(line, "ok");
+                    do_astep(w, out, n[0] as u8, n[1] as usize);
                 }
                 other => panic!("bad op {other}"),
             }
@@ -1072,7 +1530,7 @@ fn gen_case(out: &mut Out, base: &Path, rng: &mut Rng, steps: u64) {
         max_cycles,
         *rng.pick(&[2u64, 4, 8, 1500]),
         rng.range(0, 2),
-        *rng.pick(&[0u64, 0, 5, 20]),
+        *rng.pick(&[0u64, 0, 5, 20, 3_600_000]),
         *rng.pick(&[3u64, 6, 25, 25])
     );
     out.begin_case(&format!("bytes={max_bytes} cycles={max_cycles}"));
@@ -1093,12 +1551,16 @@ fn gen_case(out: &mut Out, base: &Path, rng: &mut Rng, steps: u64) {
         } else if r < 66 {
             "template".to_string()
         } else if r < 72 {
-            format!("wait {}", if interval > 0 { interval + 3 } else { 2 })
+            format!("wait {}", if interval > 0 && interval < 1000 { interval + 3 } else { 2 })
         } else if r < 79 {
             format!("uncle {} {}", rng.below(2), rng.below(3))
-        } else if r < 86 {
+        } else if r < 84 {
             let back = rng.range(1, 4);
             format!("fork {} {} {} {} {}", back, rng.range(1, 2), rng.below(12), rng.below(5), if rng.chance(4, 5) { 1 } else { 0 })
+        } else if r < 90 {
+            // one real update path now: mostly on the current tip, sometimes update_blank on an older tip
+            let kind = if interval >= 1000 { *rng.pick(&[0u64, 1, 2, 2, 3, 3, 3, 4, 4, 4]) } else { *rng.pick(&[0u64, 1, 1, 2, 2, 3, 3, 4, 4]) };
+            format!("step {} {}", kind, if kind == 0 && rng.chance(1, 3) { rng.range(1, 2) } else { 0 })
         } else {
             // limits for the selector probe: boundaries of what is in the pool
             let sl = match rng.below(6) {
@@ -1291,14 +1753,17 @@ fn gen_order_case(out: &mut Out, base: &Path, rng: &mut Rng, k: u64) {
     let max_bytes = if mode == 3 { 597_000 } else { rng.range(2600, 4400) };
     let max_cycles = if mode == 3 { 537 * rng.range(3, 7) + rng.below(2) * 100 } else { 3_500_000_000 };
     let max_props = *rng.pick(&[6u64, 8, 9, 1500]);
-    let interval = *rng.pick(&[0u64, 0, 5]);
+    // 3_600_000: "manual" case — the assembler's background loop never gets to the queued Pending /
+    // Proposed / Uncle messages, every incremental update is an explicit `step` compared with the model
+    let interval = *rng.pick(&[0u64, 0, 5, 3_600_000, 3_600_000]);
+    let manual = interval >= 1000;
     let epoch_end = rng.chance(1, 2);
     let cfgl = format!("cfg {} {} {} {} {} {} 2 {} 25", epoch_len, w_close, w_far, max_bytes, max_cycles, max_props, interval);
     out.begin_case(&format!("order {}{}{} mode={mode} bytes={max_bytes} cycles={max_cycles} props={max_props} epoch_end={}", perm[0], perm[1], perm[2], epoch_end as u8));
     let mut w: Option<World> = None;
     exec(&mut w, out, base, &cfgl);
-    let settle = format!("wait {}", if interval > 0 { interval + 4 } else { 3 });
-    let mut fp = format!("order{}{}{}m{mode}e{}", perm[0], perm[1], perm[2], epoch_end as u8);
+    let settle = format!("wait {}", if interval > 0 && !manual { interval + 4 } else { 3 });
+    let mut fp = format!("order{}{}{}m{mode}e{}{}", perm[0], perm[1], perm[2], epoch_end as u8, if manual { "M" } else { "" });
     let mut run = |w: &mut Option<World>, out: &mut Out, l: &str| {
         fp.push(l.as_bytes()[0] as char);
         exec(w, out, base, l);
@@ -1417,6 +1882,9 @@ fn gen_order_case(out: &mut Out, base: &Path, rng: &mut Rng, k: u64) {
                 rng.shuffle(&mut order);
                 for (i, k) in order.iter().enumerate() {
                     run(&mut w, out, &format!("send {}", k + 1));
+                    if manual && (i + 1 == order.len() || rng.chance(2, 3)) {
+                        run(&mut w, out, "step 4 0");
+                    }
                     if i % 3 == 2 && rng.chance(1, 2) {
                         run(&mut w, out, "wait 2");
                     }
@@ -1432,14 +1900,23 @@ fn gen_order_case(out: &mut Out, base: &Path, rng: &mut Rng, k: u64) {
                     run(&mut w, out, &format!("send {}", cp));
                     run(&mut w, out, &format!("send {}", cp + 1));
                 }
+                if manual {
+                    run(&mut w, out, "step 4 0");
+                }
             }
             'U' => {
                 for _ in 0..rng.range(1, 3) {
                     // siblings of the tip, some of them carrying proposals (excluded from package_proposals)
                     run(&mut w, out, &format!("uncle 0 {}", rng.below(3)));
+                    if manual {
+                        run(&mut w, out, "step 2 0");
+                    }
                 }
                 if rng.chance(1, 3) {
                     run(&mut w, out, "uncle 1 0");
+                    if manual {
+                        run(&mut w, out, "step 2 0");
+                    }
                 }
             }
             _ => {
@@ -1451,6 +1928,12 @@ fn gen_order_case(out: &mut Out, base: &Path, rng: &mut Rng, k: u64) {
                     run(&mut w, out, &format!("submit {} 0.{} 1 {}", next_tid, next_cell, *rng.pick(&[1000u64, 5000])));
                     next_tid += 1;
                     next_cell += 1;
+                    if manual && rng.chance(1, 2) {
+                        run(&mut w, out, "step 3 0");
+                    }
+                }
+                if manual {
+                    run(&mut w, out, "step 3 0");
                 }
             }
         }
@@ -1462,15 +1945,35 @@ fn gen_order_case(out: &mut Out, base: &Path, rng: &mut Rng, k: u64) {
             // argument limits below the consensus values
             run(&mut w, out, &format!("template {} {} 0", rng.range(300, max_bytes.min(5000)), rng.below(max_props.min(10) + 1)));
         }
+        // each real update path once more, explicitly, compared line by line with the model (the state
+        // they meet is the one the incremental paths just produced: block full / nearly full)
+        let rot = (k + tmpl_no) % 4;
+        for j in 0..4 {
+            run(&mut w, out, &format!("step {} 0", [2u64, 3, 4, 1][((rot + j) % 4) as usize]));
+        }
+        run(&mut w, out, "template");
     }
     run(&mut w, out, "select 1000000 3500000000");
     run(&mut w, out, &format!("select {} {}", rng.range(300, 1500), max_cycles));
+    // the tip-change race: the assembler is reset to the PREVIOUS tip while the pool stays on the current
+    // one (as between update_blank and the pool's own reorg handling): the three pool-reading paths must
+    // leave the template alone, update_uncles may still act; the template stays valid on its own parent
+    run(&mut w, out, "step 0 1");
+    for kd in [3u64, 4, 1, 2] {
+        run(&mut w, out, &format!("step {} 0", kd));
+    }
+    run(&mut w, out, "template");
+    run(&mut w, out, "step 0 0");
+    run(&mut w, out, "step 1 0");
+    run(&mut w, out, "template");
     // tip change: blank + full update; then candidates of the old and of the new epoch
     run(&mut w, out, "mine 1");
     run(&mut w, out, "uncle 1 0");
     run(&mut w, out, "uncle 0 1");
     run(&mut w, out, &settle);
     run(&mut w, out, "template");
+    run(&mut w, out, "step 0 0");
+    run(&mut w, out, "step 2 0");
     if next_cell < 40 {
         run(&mut w, out, &format!("submit {} 0.{} 1 1000", next_tid, next_cell));
         run(&mut w, out, &settle);
@@ -1519,6 +2022,9 @@ pub fn run(opts: &Opts) {
             };
             let l = format!("weight {} {}", size, cycles);
             exec(&mut None, &mut out, &base, &l);
+        }
+        for _ in 0..(if opts.thorough() { 12 } else { 3 } * opts.scale) {
+            gen_cu_case(&mut out, &base, &mut rng, if opts.thorough() { 6000 } else { 2500 });
         }
         let cases = if opts.thorough() { 90 } else { 10 } * opts.scale;
         let fills = if opts.thorough() { 60 } else { 6 } * opts.scale;
